@@ -325,3 +325,40 @@ Proof.
   apply Forall_forall. intros r Hin. apply in_map_iff in Hin as [r' [<- Hin']].
   unfold vred, vscale. rewrite !map_length. rewrite Forall_forall in Hr. apply Hr. exact Hin'.
 Qed.
+
+(* ---------- quadratic forms of sums and outer products ---------- *)
+Lemma dot_vadd : forall r s x, length r = length s -> dot (vadd r s) x == dot r x + dot s x.
+Proof.
+  induction r as [|a r IH]; intros [|b s] x H; simpl in *; try discriminate; [ring|].
+  destruct x as [|c x]; simpl; [ring|]. rewrite IH by lia. ring.
+Qed.
+
+Lemma qf_madd n A B x : wf n A -> wf n B -> qf (madd A B) x == qf A x + qf B x.
+Proof.
+  intros [HlA HrA] [HlB HrB]. unfold qf, mv, madd. rewrite map_map.
+  assert (E : dot x (map (fun p : vec * vec => dot (let '(r, s) := p in vred (vadd r s)) x) (combine A B))
+           == dot x (map (fun p : vec * vec => dot (fst p) x + dot (snd p) x) (combine A B))).
+  { apply dot_map_ext. intros [r s] Hin. cbn [fst snd].
+    rewrite dot_vred. rewrite dot_vadd; [reflexivity|].
+    pose proof (in_combine_l _ _ _ _ Hin) as H1. pose proof (in_combine_r _ _ _ _ Hin) as H2.
+    rewrite Forall_forall in HrA, HrB. rewrite (HrA r H1), (HrB s H2). reflexivity. }
+  rewrite E. rewrite dot_map_add.
+  rewrite (map_snd_combine_fun (fun r => dot r x)) by lia.
+  assert (F : map (fun r : vec * vec => dot (fst r) x) (combine A B) = map (fun r => dot r x) A).
+  { clear E HrA HrB. revert B HlB. revert HlA. revert n.
+    induction A as [|r A IH]; intros n HlA [|s B] HlB; simpl in *; try reflexivity; try lia.
+    f_equal. destruct n; [discriminate|]. apply (IH n); lia. }
+  rewrite F. reflexivity.
+Qed.
+
+Lemma madd_wf n A B : wf n A -> wf n B -> wf n (madd A B).
+Proof.
+  intros [HlA HrA] [HlB HrB]. unfold madd. split.
+  - rewrite map_length, combine_length. lia.
+  - apply Forall_forall. intros r Hr. apply in_map_iff in Hr as [[a b] [<- Hin]].
+    pose proof (in_combine_l _ _ _ _ Hin) as H1. pose proof (in_combine_r _ _ _ _ Hin) as H2.
+    rewrite Forall_forall in HrA, HrB. unfold vred. rewrite map_length.
+    assert (forall u v : vec, length u = length v -> length (vadd u v) = length u) as L.
+    { induction u as [|p u IHu]; intros [|q v] H; simpl in *; try discriminate; [reflexivity|]. f_equal. apply IHu. lia. }
+    rewrite L; [apply HrA; exact H1 | rewrite (HrA a H1), (HrB b H2); reflexivity].
+Qed.
